@@ -3,7 +3,7 @@ from vf.common import Harness
 
 LEVEL = "model_checking"
 TECHNIQUE = "CBMC bounded symbolic execution of allocation-heavy units with a nondeterministically failing allocator (one symbolic bit per allocation = every fault schedule in one query)"
-ASSUMPTIONS = ["unit level: arena, notebook, stack, hash table, atom extraction, objects, sized strings; whole-API scenarios (compile this rule with the k-th malloc failing) need the parser and are outside",
+ASSUMPTIONS = ["unit level: arena, notebook (stopping at / continuing after the first failed allocation), stack, hash table, atom extraction, sized strings, yr_rules_from_arena + destroy, AC transition-table growth; whole-API scenarios (compile this rule with the k-th malloc failing) need the parser and are outside",
                "allocator = harness/common/mem_fail.h replacing mem.c; realloc failure leaves the old block valid (realloc(3) contract)"]
 LEVEL_TEXT = "Bounded model checking over all fault schedules of each unit (every subset of its allocation sites failing), with leak accounting."
 LEVEL_NOTE = "; ".join(ASSUMPTIONS)
